@@ -181,6 +181,19 @@ def atom_facts(atom: ast.AST, pol: bool, env: dict[str, Term]) -> set[tuple]:
         elif op in (ast.Is, ast.IsNot):
             same = (op is ast.Is) == pol
             out.add(('is' if same else 'isnot', frozenset({a, b})))
+        elif op in (ast.Lt, ast.Gt, ast.LtE, ast.GtE):
+            # canonical orderings: ('lt', x, y) means x < y, ('le', x, y) means x <= y
+            if op in (ast.Gt, ast.GtE):
+                a, b = b, a
+                op = ast.Lt if op is ast.Gt else ast.LtE
+            if pol:
+                out.add(('lt' if op is ast.Lt else 'le', a, b))
+            else:
+                out.add(('le' if op is ast.Lt else 'lt', b, a))
+            out.add(('truth', term(atom, env), pol))
+        elif op in (ast.In, ast.NotIn):
+            out.add(('in', a, b, (op is ast.In) == pol))
+            out.add(('truth', term(atom, env), pol))
         else:
             out.add(('truth', term(atom, env), pol))
     elif (
@@ -193,6 +206,23 @@ def atom_facts(atom: ast.AST, pol: bool, env: dict[str, Term]) -> set[tuple]:
     else:
         out.add(('truth', term(atom, env), pol))
     return out
+
+
+def raise_paths(fn, exc: str | None = None):
+    """(facts, env, path) of every path of fn that ends in a raise (optionally of a given exception class)."""
+    from .paths import exception_name, function_paths
+
+    out = []
+    for p in function_paths(fn):
+        if p.exit == 'raise' and (exc is None or exception_name(p.node) == exc):
+            out.append((facts(p), path_env(p), p))
+    return out
+
+
+def normal_paths(fn):
+    from .paths import function_paths
+
+    return [(facts(p), path_env(p), p) for p in function_paths(fn) if p.exit != 'raise']
 
 
 def has_eq(fs: set[tuple], a: Term, b: Term) -> bool:
